@@ -666,9 +666,32 @@ theorem rstep_invHB (hen : s.enabled ⟨s.cfg.W, f⟩ = true) (hI : Inv s) (hE :
   | rmUnlock d => exact hbr_rmUnlock d hpc hen hI hE hi h
   | _ => simp [rstep, hpc] at h
 
+/-- the interrupted futex wait preserves the happens-before invariant: knowledge sets are untouched -/
+theorem spur_invHB {s : St} {t : Nat} {q : Pc} (hi : InvHB s)
+    (hq : (∃ rpos, s.pc t = .rBlocked rpos ∧ q = .rLdW rpos) ∨ (s.pc t = .wBlocked ∧ q = .wLock)) :
+    InvHB { s with pc := upd s.pc t q } := by
+  obtain ⟨h1, h2, h3, h4, h5, h6, h7, h8, h9⟩ := hi
+  refine ⟨h1, ?_, h3, h4, h5, h6, h7, ?_, h9⟩
+  · intro u hu n1 n2
+    by_cases hut : u = t
+    · subst hut
+      apply h2 u hu
+      · rcases hq with ⟨rpos, hp, -⟩ | ⟨hp, -⟩ <;> simp [hp]
+      · rcases hq with ⟨rpos, hp, -⟩ | ⟨hp, -⟩ <;> simp [hp]
+    · simp only [upd_other _ _ _ _ hut] at n1 n2; exact h2 u hu n1 n2
+  · by_cases hW : s.cfg.W = t
+    · subst hW
+      simp only [upd_same]
+      rcases hq with ⟨rpos, hp, rfl⟩ | ⟨hp, rfl⟩
+      · have := h8; rw [hp] at this; simpa [RHB] using this
+      · simp [RHB]
+    · simp only [upd_other _ _ _ _ hW]; exact h8
+
 theorem step_invHB {s s' : St} {tok : Tok} {ev : List String} (hI : Inv s) (hE : InvE s) (hi : InvHB s)
     (h : step s tok = some (s', ev)) : InvHB s' := by
-  unfold step at h
+  rcases step_cases h with ⟨-, q, rfl, hq⟩ | h
+  · exact spur_invHB hi hq
+  unfold stepMain at h
   split at h
   · cases h
   next hen =>
